@@ -148,3 +148,11 @@ Print Assumptions C20_sync_operations_as_modelled.
 Theorem C20_sync_operations_balanced : SyncSites.balanced GenSyncSites.sync_sites = true.
 Proof. exact SyncSites.sync_sites_balanced. Qed.
 Print Assumptions C20_sync_operations_balanced.
+
+(* the text of an external tool (a pyflakes line, shellcheck's message and level) is put into a
+   message through oneLine (error.go; byte-level model [one_line_s], K on pyflakes output): no LF
+   and no CR is left in it *)
+From AL Require Proc.OneLineS.
+Theorem C20_tool_text_has_no_line_feed : forall s, OneLineS.no_lfcr (ExecOutcome.one_line_s s) = true.
+Proof. exact OneLineS.one_line_s_no_lfcr. Qed.
+Print Assumptions C20_tool_text_has_no_line_feed.
